@@ -520,18 +520,21 @@ pub struct VisitValue { _p: u8 }
 #[verifier::external_body]
 pub fn visit_array<R: Read>(visitor: VisitorS, de: &mut Deserializer<R>, len: usize, count: usize) -> (r: Result<VisitValue, Error>)
     requires old(de).reader.wf(),
+        count > 0 ==> old(de).elem_format_code is Some,            // [C03.array.element-constructor-set] a non-empty array body is handed on together with its element constructor
     ensures final(de).reader.wf(), final(de).handed@ == Some(Handed { kind: 0, len: len as int, count: count as int }),
 { unimplemented!() }
 /// `visitor.visit_seq(ListAccess::new(de, len, count))`
 #[verifier::external_body]
 pub fn visit_list<R: Read>(visitor: VisitorS, de: &mut Deserializer<R>, len: usize, count: usize) -> (r: Result<VisitValue, Error>)
     requires old(de).reader.wf(),
+        count > 0 ==> old(de).elem_format_code is None,           // [C03.compound.body-own-constructors] the elements of a list carry their own constructors, also when the list itself is an element of an array (whose element constructor must not leak into the list body)
     ensures final(de).reader.wf(), final(de).handed@ == Some(Handed { kind: 1, len: len as int, count: count as int }),
 { unimplemented!() }
 /// `visitor.visit_map(MapAccess::new(de, size, count))`
 #[verifier::external_body]
 pub fn visit_map<R: Read>(visitor: VisitorS, de: &mut Deserializer<R>, len: usize, count: usize) -> (r: Result<VisitValue, Error>)
     requires old(de).reader.wf(),
+        count > 0 ==> old(de).elem_format_code is None,           // [C03.compound.body-own-constructors] the keys and values of a map carry their own constructors, also when the map itself is an element of an array
     ensures final(de).reader.wf(), final(de).handed@ == Some(Handed { kind: 2, len: len as int, count: count as int }),
 { unimplemented!() }
 //@@ type file=serde_amqp/src/util.rs kind=enum name=IsArrayElement
@@ -744,6 +747,12 @@ pub open spec fn compound_header(u: Seq<u8>) -> Option<(int, int)> {
     else { None }
 }
 
+/// the octets of the value about to be decoded, constructor first: inside an array the constructor is the array's element constructor (held in
+/// elem_format_code, not repeated on the wire), otherwise it is the next unread octet
+pub open spec fn eff_unread<R: Read>(de: Deserializer<R>) -> Seq<u8> {
+    match de.elem_format_code { Some(c) => seq![c as u8] + de.reader.unread(), None => de.reader.unread() }
+}
+
 impl<R: Read> Deserializer<R> {
 //@@ fn file=serde_amqp/src/de.rs impl=`~de::Deserializer<'de>for&mutDeserializer<R>` name=deserialize_seq
 //@@ selfmut
@@ -759,11 +768,11 @@ impl<R: Read> Deserializer<R> {
 //@@ subst `visitor.visit_seq(ArrayAccess::new(self, len, count))` => `visit_array(visitor, self, len, count)` rule=R9
 //@@ subst `visitor.visit_seq(ListAccess::new(self, len, count))` => `visit_list(visitor, self, len, count)` rule=R9
 //@@ spec
-    requires bounded(old(self).reader), old(self).elem_format_code is None, old(self).handed@ is None,
+    requires bounded(old(self).reader), old(self).handed@ is None,
     ensures
         final(self).reader.wf(),
         final(self).handed@ is Some ==> ({
-            let u = old(self).reader.unread();
+            let u = eff_unread(*old(self));
             let h = final(self).handed@->Some_0;
             &&& compound_header(u) == Some((h.len, h.count))                                                     // [C05.compound.header-decoding] list0/list8/list32/array8/array32: the body length and count handed on are the ones the AMQP layout defines (size minus the count field, minus the element constructor for a non-empty array)
             &&& h.kind == (if u[0] == 0xe0 || u[0] == 0xf0 { 0int } else { 1int })
@@ -785,11 +794,11 @@ impl<R: Read> Deserializer<R> {
 //@@ subst `u32::from_be_bytes(` => `from_be32(` rule=R9
 //@@ subst `visitor.visit_seq(ListAccess::new(self, size, count))` => `visit_list(visitor, self, size, count)` rule=R9
 //@@ spec
-    requires bounded(old(self).reader), old(self).elem_format_code is None, old(self).handed@ is None,
+    requires bounded(old(self).reader), old(self).handed@ is None,
     ensures
         final(self).reader.wf(),
         final(self).handed@ is Some ==> ({
-            let u = old(self).reader.unread();
+            let u = eff_unread(*old(self));
             let h = final(self).handed@->Some_0;
             &&& (u[0] == 0x45 || u[0] == 0xc0 || u[0] == 0xd0)
             &&& compound_header(u) == Some((h.len, h.count)) && h.kind == 1                                     // [C05.compound.header-decoding]
@@ -810,11 +819,11 @@ impl<R: Read> Deserializer<R> {
 //@@ subst `u32::from_be_bytes(` => `from_be32(` rule=R9
 //@@ subst `visitor.visit_map(MapAccess::new(self, size, count))` => `visit_map(visitor, self, size, count)` rule=R9
 //@@ spec
-    requires bounded(old(self).reader), old(self).elem_format_code is None, old(self).handed@ is None,
+    requires bounded(old(self).reader), old(self).handed@ is None,
     ensures
         final(self).reader.wf(),
         final(self).handed@ is Some ==> ({
-            let u = old(self).reader.unread();
+            let u = eff_unread(*old(self));
             let h = final(self).handed@->Some_0;
             &&& (u[0] == 0xc1 || u[0] == 0xd1)
             &&& compound_header(u) == Some((h.len, h.count)) && h.kind == 2                                     // [C05.compound.header-decoding] map8/map32
